@@ -116,7 +116,7 @@ Print Assumptions C16_input_partial.
 (* HEADLINE — what `run` returns.  For ANY unit dynamics U, any number of populations / units / connections, any step
    size and ANY number of rows, the Euler trajectory of the population circuit is the Euler trajectory of the explicit
    network (one scalar edge per non-zero matrix entry, parameter i on unit i, per-edge discrete delays), provided the
-   decidable guard holds: per-connection guards, none of the remaining loud classes, no DYNAMIC coupling template
+   decidable guard holds: per-connection guards, none of the remaining loud classes, no DYNAMIC coupling template, no gamma-kernel delay
    (edge states: covered per step by C16_dynamic_coupling_state/_output and C16_input_partial, and by the
    correspondence run).  Proof: shape invariant of the state along the run + C16_input_partial at every step. *)
 Theorem C16_run_partial : forall U N units dt rows,
